@@ -9,7 +9,9 @@ for p in "$@"; do
   out=$(cd /verif && GT_EVIDENCE_DIR=/verif/work/evidence_scratch ./check "$p" --tier quick 2>&1)
   code=$?
   echo "== $p exit=$code"
-  echo "$out" | grep -E "VIOLATION|KNOWN-FINDING|INFRA|seed=" | cut -c1-220 | head -8
+  echo "   violations=$(echo "$out" | grep -c '^VIOLATION') no-failing-input=$(echo "$out" | grep -c 'no-failing-input-found')"
+  echo "$out" | grep -E "^VIOLATION|INFRA" | cut -c1-200 | head -3
+  echo "$out" | grep -E "seed=" | cut -c1-220 | tail -1
 done
 git -C /repo checkout -- .
 git -C /repo status --short | head -3
